@@ -506,6 +506,7 @@ def run(rep):
     shapes2 = G.shapes(2) if not rep.quick else [(0, False), (2, False), (2, True)]
     gen += [("d2", 2, tr, {}) for tr in itertools.product(shapes2, repeat=3)]
     gen.append(("const", 3, ((0, False),) * 3, {}))
+    gen += [("d2c", 3, pair + ((0, False),), {}) for pair in itertools.product(G.shapes(2), repeat=2)]
     allgroups = {}
     for groups in pmap(expr_gen, gen, rep.procs, chunksize=4):
         for key, ts in groups.items():
